@@ -311,3 +311,17 @@ func CaptureC12(r *rand.Rand, n int) []*Case {
 	}
 	return out
 }
+
+// F13Case: the witness of finding F13 (name tables are per plugin, so with nested -pluginprefix
+// overrides a helper name minted by one plugin can equal a user-chosen name handled by another).
+func F13Case() *Case {
+	decl := "type T1 struct{ A int }\n\ntype T2 struct{ B string }\n\ntype S struct {\n\tX T1\n\tY T2\n}"
+	ov := map[string]string{"hash": "h", "equal": "h_T"}
+	return &Case{ID: "f13", Stream: "f13", Plugins: Plugins("derive", ov), GoderiveArgs: PrefixArgs("derive", ov),
+		Types: []TypeSpec{
+			{Go: "*S", Wire: "(p (nm 0 S (st)))", Decl: decl},
+			{Go: "*T1", Wire: "(p (nm 0 T1 (st int)))", Decl: decl},
+		},
+		Files:    []FileSpec{{Name: "a.go", Calls: []CallSpec{{Plugin: "hash", Name: "h", Type: 0}, {Plugin: "equal", Name: "h_T", Type: 1}}}},
+		Variants: []Variant{{false, false}}, KeepDerived: true, OtherFile: "z_other.go"}
+}
